@@ -118,7 +118,15 @@ type Spec struct {
 // ---------------------------------------------------------------------------
 // Writer.
 
+// Raw makes the writer print code points above U+007F verbatim (as UTF-8 text
+// in the .lox source) instead of as \u / \U escapes. Set by callers around
+// LexerText(); the workers are single-threaded.
+var Raw bool
+
 func cpText(c int, inClass bool) string {
+	if Raw && c > 0x9F && c != 0xFFFD && !(c >= 0xD800 && c <= 0xDFFF) && c <= 0x10FFFF && c != 0x2028 && c != 0x2029 {
+		return string(rune(c))
+	}
 	switch {
 	case c == '\n':
 		return `\n`
